@@ -141,7 +141,10 @@ def tlc(module, cfg=None, outname=None, workdir=None, workers=1, env=None, timeo
     # java is invoked directly: the launcher sizes the MAIN thread's stack from -Xss on the command
     # line only (not from JAVA_TOOL_OPTIONS), and TLC evaluates ASSUMEs, initial states and their
     # invariants on the main thread - the recursive evaluators need a deep stack there too
+    # TLC leaves a tlc-<n> directory in java.io.tmpdir on every run: kept inside the run's metadir, which is removed
+    os.makedirs(meta, exist_ok=True)
     cmd = ["java", "-Xss1g", "-Xmx" + xmx, "-XX:+UseParallelGC", "-Dtlc2.tool.queue.IStateQueue=StateDeque",
+           "-Djava.io.tmpdir=" + meta,
            "-cp", TLA_JAR + ":/opt/veriftools/tla/CommunityModules-deps.jar", "tlc2.TLC"]
     # -checkpoint 0: no periodic checkpoints (the depth-first StateDeque cannot be checkpointed: a run that is
     # still going after 30 minutes would otherwise end in an UnsupportedOperationException)
